@@ -904,4 +904,13 @@ pub struct MPMCFutSender<T> {""")]),
                 token.epoch.store(epoch, Ordering::Release);
                 let _g = self.mem_manager.lock().unwrap();
             }""")]),
+
+    V('check-ignores-tag-bit', 'C15', ['P7g'], [E(WAIT, "wc.load(Relaxed) == 0 || (!is_tagged(raw) && (seq == cur_count || past(seq, cur_count).1))", "wc.load(Relaxed) == 0 || (is_tagged(0) || (seq == cur_count || past(seq, cur_count).1))")]),
+    V('rf-check-early-return', None, [], [E(WAIT, """    wc.load(Relaxed) == 0 || (!is_tagged(raw) && (seq == cur_count || past(seq, cur_count).1))""", """    if wc.load(Relaxed) == 0 {
+        return true;
+    }
+    if is_tagged(raw) {
+        return false;
+    }
+    seq == cur_count || past(seq, cur_count).1""")], kind='refactor'),
 ]
